@@ -620,3 +620,34 @@ Qed.
 
 Lemma degrees_fitb_ok c : degrees_fitb c = true -> forall r, In r (c_rts c) -> Z.of_nat (length (cr_out r)) <= 2 ^ 32.
 Proof. unfold degrees_fitb. intros H r Hr. rewrite forallb_forall in H. specialize (H r Hr). lia. Qed.
+
+Lemma is_rtb_ok c u : is_rtb c u = true -> is_router c u.
+Proof. unfold is_rtb. intros H. apply existsb_exists in H. destruct H as (r & Hr & Hn). apply str_eqb_eq in Hn. exists r. auto. Qed.
+
+Lemma transitb_ok sp c t : transitb sp c t = true ->
+  forall u p, is_router c u -> sp (c_graph c) u (cn_name t) = Some p -> forall x, In x (removelast p) -> is_router c x.
+Proof.
+  unfold transitb. intros H u p (r & Hr & <-) Hsp x Hx. rewrite forallb_forall in H. specialize (H r Hr).
+  rewrite Hsp in H. rewrite forallb_forall in H. specialize (H x Hx). unfold is_routerb in H.
+  apply existsb_exists in H. destruct H as (r' & Hr' & Hn). apply str_eqb_eq in Hn. exists r'. auto.
+Qed.
+
+(* the hardware-level theorems with every hypothesis in decidable form *)
+Theorem hw_send_decidable (d : desc) (g : graph) (c : compiled) (ri : rinfo) (n : netlist) (t : cni) (id : Z) (nt : net) :
+  nt = Req \/ nt = Rsp ->
+  build d = Ok g -> compile d g = Ok c -> gen_routing_info sp_reference c = Ok ri -> emit c ri = Ok n ->
+  d_algo d = ID -> In t (c_nis c) -> id_num (cn_id t) = Ok id ->
+  transitb sp_reference c t = true ->
+  names_sepb g nt = true -> single_attachb g c = true -> links_typedb g c = true -> degrees_fitb c = true ->
+  forall s0 p, In s0 (c_nis c) -> cn_name s0 <> cn_name t -> is_rtb c (snd (attach nt s0)) = true ->
+    sp_reference g (snd (attach nt s0)) (cn_name t) = Some p ->
+    let tr := send n nt (emit_ni d (ri_offset ri) s0) (HId id) in
+    t_out tr = Delivered (cn_name t) (HId id) /\ S (length (t_rts tr)) = length p.
+Proof.
+  intros Hnt Hb Hc Hri He Ha Ht Hid Htr H1 H2 H3 H4 s0 p Hs0 Hne Hrt Hsp.
+  assert (Hcg : c_graph c = g) by apply (compile_desc d g c Hc).
+  apply (hw_send_model d g c ri n t id nt Hnt Hb Hc Hri He Ha Ht Hid
+           (fun u p0 Hu Hp0 => transitb_ok sp_reference c t Htr u p0 Hu (eq_ind_r (fun gg => sp_reference gg u (cn_name t) = Some p0) Hp0 Hcg))
+           (names_sepb_ok g nt H1) (single_attachb_ok g c H2) (links_typedb_ok g c H3) (degrees_fitb_ok c H4)
+           s0 (snd (attach nt s0)) p Hs0 Hne eq_refl (is_rtb_ok c _ Hrt) Hsp).
+Qed.
